@@ -16,6 +16,7 @@ const (
 	SimPtRouteOpts    = ptRouteOpts
 	SimPtBeforeUnlock = ptBeforeUnlock
 	SimPtBeforeStore  = ptBeforeStore
+	SimPtTryLock      = ptTryLock
 )
 
 // SimHooks are assigned by a deterministic simulator (build tag verif only). All of them may be nil.
